@@ -88,6 +88,7 @@ var registry = map[string]propDef{
 	"C07":  {"other", props.C07},
 	"C07b": {"other", props.C07bitwise},
 	"C07p": {"other", props.C07prefix},
+	"C07h": {"other", props.C07hamming},
 	"C09p": {"other", props.C07prefix},
 	"C08":  {"other", props.C08},
 	"C09":  {"other", props.C09},
